@@ -23,6 +23,8 @@ Require Import Ctpg.Proofs.CapFormulaValid.
 Require Import Ctpg.Model.Buffers.
 Require Import Ctpg.Proofs.BuffersCorrect.
 Require Import Ctpg.Model.Containers.
+Require Import Ctpg.Model.Utils.
+Require Import Ctpg.Proofs.UtilsDriverLink.
 From Coq Require Import Permutation.
 
 (* a parse whose stacks never exceed n gives the same result, final state and output with any fixed capacity above n as with unbounded stacks (cstring_buffer vs the other buffers) *)
@@ -66,6 +68,12 @@ Theorem C07_every_lexeme_of_every_buffer_kind :
   forall pre text post : list nat, all_views (cs_get_view (cs_of_literal text)) 0 (length text) = all_views (sb_get_view {| sb_str := text |}) 0 (length text) /\ all_views (sb_get_view {| sb_str := text |}) 0 (length text) = all_views (svb_get_view {| sv_mem := pre ++ text ++ post; sv_off := length pre; sv_len := length text |}) (length pre) (length text).
 Proof. exact @all_views_agree. Qed.
 Print Assumptions C07_every_lexeme_of_every_buffer_kind.
+
+(* LINK: the slice the driver model hands to term functors (Driver.slice_of) is what get_view of each real buffer kind returns *)
+Theorem C07_the_drivers_lexeme_is_get_view_of_every_buffer_kind :
+  forall (pre text post : list nat) (s e : nat), s <= e -> e <= length text -> cs_get_view (cs_of_literal text) s e = Ok (slice_of text s e) /\ sb_get_view {| sb_str := text |} s e = Ok (slice_of text s e) /\ svb_get_view {| sv_mem := pre ++ text ++ post; sv_off := length pre; sv_len := length text |} (length pre + s) (length pre + e) = Ok (slice_of text s e).
+Proof. exact @lexeme_of_every_buffer_kind_is_the_drivers_slice. Qed.
+Print Assumptions C07_the_drivers_lexeme_is_get_view_of_every_buffer_kind.
 
 (* and the same byte under every iterator inside the text *)
 Theorem C07_buffer_kinds_same_extent_and_bytes :
